@@ -121,6 +121,34 @@ def optIntJ : Option Int → Json
   | some n => ofInt n
   | none => Json.null
 
+def parseBnd (j : Json) : M Bnd := do
+  let a ← jArr j
+  if a.size != 2 then throw "bad bounds pair"
+  pure ⟨← jInt a[0]!, ← jInt a[1]!⟩
+
+def parseInts (j : Json) : M (List Int) := do (← jArr j).toList.mapM jInt
+
+def parsePoly (j : Json) : M Poly := do
+  let bnds ← (← fldArr j "bnds").toList.mapM parseBnd
+  let rows ← (← fldArr j "rows").toList.mapM (fun r => do
+    let a ← jArr r
+    if a.size != 2 then throw "bad row"
+    pure (⟨← jInt a[0]!, ← parseInts a[1]!⟩ : PRow))
+  pure ⟨bnds, rows⟩
+
+def polyJ (p : Poly) : Json :=
+  Json.mkObj [("bnds", Json.arr (p.bnds.map bndJ).toArray),
+              ("rows", Json.arr (p.rows.map (fun r => Json.arr #[ofInt r.b, Json.arr (r.cs.map ofInt).toArray])).toArray)]
+
+def intsJ (l : List Int) : Json := Json.arr (l.map ofInt).toArray
+def boolsJ (l : List Bool) : Json := Json.arr (l.map (fun b => ofInt (if b then 1 else 0))).toArray
+def optsJ (l : List (Option Int)) : Json := Json.arr (l.map optIntJ).toArray
+
+def parseOpts (j : Json) : M (List (Option Int)) := do
+  (← jArr j).toList.mapM (fun x => match x with | .null => pure none | v => do pure (some (← jInt v)))
+def parseMask (j : Json) : M (List Bool) := do
+  (← jArr j).toList.mapM (fun x => do pure ((← jInt x) != 0))
+
 def handle (j : Json) : M Json := do
   let op ← fldStr j "op"
   match op with
@@ -154,6 +182,29 @@ def handle (j : Json) : M Json := do
       pure (Json.mkObj [("rows", Json.arr ((P.encode a t).map rowJ).toArray),
                         ("vars", Json.arr (((P.flatIB t).filter (fun e => !(a && e.1 == t.id))).map idBndJ).toArray),
                         ("safe", P.safeB t)])
+  | "tighten" => do
+      let p ← parsePoly (← fld j "p")
+      pure (Json.mkObj [("bnds", Json.arr ((Poly.tighten p).map bndJ).toArray)])
+  | "row_bounds" => do
+      let p ← parsePoly (← fld j "p")
+      pure (Json.mkObj [("bnds", Json.arr ((Poly.rowBounds p).map bndJ).toArray), ("ncomb", intsJ (Poly.nRowComb p))])
+  | "red" => do
+      let p ← parsePoly (← fld j "p")
+      pure (Json.mkObj [("rows", boolsJ (Poly.redRows p)), ("cols", optsJ (Poly.redCols p))])
+  | "rrc" => do
+      let p ← parsePoly (← fld j "p")
+      let (r, c) := Poly.rrc p
+      pure (Json.mkObj [("rows", boolsJ r), ("cols", optsJ c), ("reduced", polyJ (Poly.reduce p r c))])
+  | "reduce_poly" => do
+      let p ← parsePoly (← fld j "p")
+      let r ← match fldOpt j "rows" with | some r => parseMask r | none => pure (p.rows.map (fun _ => false))
+      let c ← match fldOpt j "cols" with | some c => parseOpts c | none => pure (p.bnds.map (fun _ => none))
+      pure (Json.mkObj [("reduced", polyJ (Poly.reduce p r c))])
+  | "classify" => do
+      let p ← parsePoly (← fld j "p")
+      let pts ← (← fldArr j "pts").toList.mapM parseInts
+      pure (Json.mkObj [("sat", boolsJ (pts.map (Poly.satisfied p))), ("sep", boolsJ (pts.map (Poly.separable p))),
+                        ("rowsep", boolsJ (Poly.ineqSep p pts))])
   | _ => throw "bad-op"
 
 partial def loop (h : IO.FS.Stream) (out : IO.FS.Stream) : IO Unit := do
